@@ -73,6 +73,12 @@ CHECKS = {
         note="Trusted: z3 (incl. its regular-expression theory), CPython's ast as position oracle, rsx. Free layout of whole programs is outside the claim. One defect fixed (number literals); two region deviations are known findings (Starred, nested format spec).",
         design="§5 C08",
     ),
+    "C03": dict(
+        level="other",
+        text="Solver-decided, path-exhaustive within stated bounds (Pattern B): ExtractMethod / ExtractVariable get_changes (extract._ExtractInfo, _ExtractCollector, _ExtractPerformer, _FunctionInformationCollector data-flow analysis, similarfinder, sourceutils) run on the skeletons of corpus K03 with symbolic identifier spellings and a symbolic fresh extracted name; every contiguous run of complete statements at every nesting level and every sub-expression of the target body is a region (exactly the property's quantifier, computed from the AST), similar/global_/method-vs-variable are solver-split; z3 enumerates every coincidence between names read or written in the region and names around it. Each path's result must be a RefactoringError or a project that parses and prints the same output / raises the same exception for every driver input.",
+        note="Trusted: z3, CPython (running the programs), rsx. Behaviour = stdout + exception type of drivers that reach every branch. Three genuine defect classes are known findings. Bound: corpus K03, one-letter identifiers, fresh extracted name.",
+        design="§5 C03",
+    ),
 }
 
 NOT_YET = "check not built yet (see DESIGN.md §5 for the planned decision procedure)"
